@@ -18,9 +18,24 @@ EXPLANATION = (
     "status at exit is cleared or was written after the last child finished - with user code reading the status "
     "mid-run as an input -, hook_failed is re-initialised, every step is re-run or re-assigned, and run() itself does "
     "not leave should_skip set. R5: each reset() chain re-initialises the status-relevant fields and recurses into "
-    "the children. " + T.SOUNDNESS)
+    "the children. R6: the step objects a scenario (or outline row) iterates for its status are its own - background "
+    "steps are fresh, reset copies per scenario, never the Background's objects and never shared between two scenarios "
+    "(otherwise a never-run scenario reports the statuses another scenario left behind). " + T.SOUNDNESS)
 NOT_DECIDED = ("which child-status sequences real runs can produce (all sequences are checked instead, which is "
                "stronger); error-context fields (error_message, captured) are outside the property")
+
+
+def t_own_steps(chk, ix):
+    # roll-up reads step.status of all_steps: a scenario's steps must be its own objects (R6 = S5 of C02)
+    from .. import rules_order
+    rules_order.check_step_order(chk, ix)
+    chk.rules.pop("S4", None)
+    chk.rules["R6"] = chk.rules.pop("S5")
+    chk.rules["R6"]["what"] = "a scenario's status is computed from its OWN step objects: background steps are fresh reset copies per scenario / outline row"
+    for f in chk.findings + chk.imprecise:
+        if f.rule == "S5":
+            f.rule = "R6"
+    chk.findings[:] = [f for f in chk.findings if f.rule != "S4"]
 
 
 def t_status(chk, ix):
@@ -31,6 +46,6 @@ def t_status(chk, ix):
 
 
 def run(chk, ix, tier):
-    run_parallel(chk, [(t_status, ()), (T.t_scenario, (("R4",),))] + T.container_tasks(("R4",)))
-    for r, n in (("R1", 20), ("R2", 15), ("R3", 4), ("R4", 4), ("R5", 5)):
+    run_parallel(chk, [(t_status, ()), (t_own_steps, ()), (T.t_scenario, (("R4",),))] + T.container_tasks(("R4",)))
+    for r, n in (("R1", 20), ("R2", 15), ("R3", 4), ("R4", 4), ("R5", 5), ("R6", 5)):
         chk.require_instances(r, n)
